@@ -21,13 +21,13 @@ RULE = (
     "Bounded-exhaustive for every history up to the stated length over 2 universes + 2 vertices (all four calls, "
     "every universe x every member candidate incl. the universes themselves), Hypothesis beyond.  After every "
     "call: v in U.vertices <=> U in v.universes for all pairs, neither list has a repeat, U.vertices equals the "
-    "model's insertion-ordered list, v.universes equals the model's; removal of a non-member raised and left "
+    "model's insertion-ordered list, v.universes holds exactly the model's universes (order not pinned); removal of a non-member raised and left "
     "the snapshot identical.  Non-trivial = contains a removal, a re-add after removal, and either both a "
     "vertex-side and a universe-side call on one pair or a nested/self membership; distinct = distinct case value."
 )
 ASSUMPTIONS = [
     "removing a non-member may raise any exception type (the docs name ValueError and KeyError in different places)",
-    "the order of BaseObject.universes is taken to be insertion order as well (the statement pins only Universe.vertices; both are compared because the model keeps both, and the unchanged tree satisfies both)",
+    "the order of BaseObject.universes is NOT checked here (the statement pins only the order of Universe.vertices); it is part of C03's observable graph",
 ]
 LEVEL_TEXT = (
     "Exploration with a bounded-exhaustive core: every history of <= 3 (quick) / <= 4 (thorough) membership calls "
@@ -145,8 +145,9 @@ def check_case(case):
         real, expd = w.snapshot(), m.snapshot()
         if real["members"] != expd["members"]:
             raise Violation("member-order", f"{where}: real members={real['members']} model={expd['members']}")
-        if real["unis_of"] != expd["unis_of"]:
-            raise Violation("universes-order", f"{where}: real universes={real['unis_of']} model={expd['unis_of']}")
+        # BaseObject.universes: the statement pins membership and absence of duplicates, not the order
+        if [sorted(map(str, x)) for x in real["unis_of"]] != [sorted(map(str, x)) for x in expd["unis_of"]]:
+            raise Violation("universes-membership", f"{where}: real universes={real['unis_of']} model={expd['unis_of']}")
     both_sides = any(len(s) == 2 for s in sides.values())
     nt = has_remove and readd and (both_sides or nested)
     if both_sides:
